@@ -5,7 +5,8 @@ validate_crc / unpack(validate_crc=True), FusionEngineDecoder, and `crc32` as im
 in-process; src/point_one/fusion_engine/messages/crc.cc (+ crc.h IsValid, the framer) through cxx/c06_harness.cc,
 compiled on every run with ASan + UBSan.
 Model: FeVerif/Model/Crc32.lean, FeVerif/Model/Encoder.lean through the driver commands crcspec / crctab / crcsplit /
-crclin / encode / session (the encoder model stepped over a whole call history, source identifier given or omitted) / validate.
+crclin / encode / session (the encoder model stepped over a whole call history: type, version, source identifier - given or
+omitted - and payload are inputs of each call, the encoder object carries only its sequence number) / validate.
 Oracle: the property statement, written directly below (the three CRC routines agree; the encoder's fields; every
 validator accepts encoder output; every validator rejects every altered message - in particular a message whose size
 field was altered to any value is refused without a read outside the caller's buffer, C06_oversize_rejected).
@@ -172,9 +173,10 @@ def py_decode(buf, max_payload=1 << 24):
     return [(r[3], bytes(r[2])) for r in res]
 
 
-def make_raw_class(msg_type, version, payload, raises=False):
-    # deliberately not a MessagePayload subclass: subclassing registers the class in message_type_to_class
-    class RawPayload:
+def make_raw_class(msg_type, version, payload, raises=False, base=object):
+    # deliberately not a MessagePayload subclass: subclassing registers the class in message_type_to_class.
+    # `base`: another class made here - the new class DERIVES from it and overrides everything (its own type, version, payload)
+    class RawPayload(base):
         MESSAGE_TYPE = msg_type
         MESSAGE_VERSION = version
 
@@ -197,8 +199,49 @@ def make_raw_class(msg_type, version, payload, raises=False):
     return RawPayload
 
 
+SYNTHETIC = (  # label, base label, type, version, payload: payload classes outside the library related by inheritance
+    ('Syn:A', None, 20010, 1, bytes(range(1, 9))),
+    ('Syn:B(A)', 'Syn:A', 20011, 2, bytes(range(16, 28))),           # derived: other type, version and payload
+    ('Syn:C(B(A))', 'Syn:B(A)', 20012, 1, bytes(range(32, 37))),     # derived twice; the version of its grandparent
+    ('Syn:D(A)', 'Syn:A', 20010, 3, bytes(range(48, 58))),           # derived: the parent's type, another version
+    ('Syn:E(A)', 'Syn:A', 20013, 1, bytes(range(1, 9))),             # derived: another type, the parent's version and payload bytes
+    ('Syn:F', None, 20010, 4, bytes(range(64, 70))),                 # unrelated class with the type of A
+)
+
+
+def synthetic_family():
+    """{label: (label, object, type, version, payload)} - the same objects on every call (classes are made once)."""
+    if not synthetic_family.cache:
+        cls = {}
+        for label, base, t, v, p in SYNTHETIC:
+            cls[label] = make_raw_class(t, v, p, base=cls[base] if base else object)
+            cls[label].SYN_LABEL = label
+            synthetic_family.cache[label] = (label, cls[label](), t, v, p)
+    return synthetic_family.cache
+
+
+synthetic_family.cache = {}
+
+
+def registered_class_of(obj):
+    """The class of `obj` when it is the class the library registers for its message type (what a decoder constructs), else None."""
+    from fusion_engine_client.messages import message_type_to_class, MessagePayload
+    if isinstance(obj, MessagePayload) and message_type_to_class.get(type(obj).get_type()) is type(obj):
+        return type(obj)
+    return None
+
+
+def class_label(obj):
+    """How a replay names the class of a payload object: a registered class by name, a synthetic class by its label, else None
+    (a free-standing raw class, rebuilt from type / version / payload)."""
+    c = registered_class_of(obj)
+    return c.__name__ if c is not None else getattr(type(obj), 'SYN_LABEL', None)
+
+
 def payload_objects(ctx):
-    """(label, object, type int, version int, payload bytes or None when pack() raises)."""
+    """(label, object, type int, version int, payload bytes or None when pack() raises).
+    type / version are those of the object's CLASS: type(obj).get_type() / get_version(), which must be what the object itself
+    reports, the class's own MESSAGE_TYPE / MESSAGE_VERSION and the type the class is registered under."""
     from fusion_engine_client.messages import message_type_to_class
     rng = ctx.rng
     res = []
@@ -209,7 +252,13 @@ def payload_objects(ctx):
         except Exception:
             ctx.count('class_default_does_not_pack')
             continue
-        res.append((c.__name__, obj, int(obj.get_type()), int(obj.get_version()), p))
+        ids = {'registered as': (int(t), None), 'type(obj).get_type()/get_version()': (int(type(obj).get_type()), int(type(obj).get_version())),
+               'obj.get_type()/get_version()': (int(obj.get_type()), int(obj.get_version())),
+               'MESSAGE_TYPE/MESSAGE_VERSION': (int(c.MESSAGE_TYPE), int(c.MESSAGE_VERSION))}
+        if len(set(x[0] for x in ids.values())) != 1 or len(set(x[1] for x in ids.values() if x[1] is not None)) != 1:
+            ctx.violation('C06/payload-class-type-or-version-ambiguous', '%s: %s' % (c.__name__, ids),
+                          {'kind': 'class', 'class': c.__name__, 'ids': {k: list(x) for k, x in ids.items()}})
+        res.append((c.__name__, obj, int(type(obj).get_type()), int(type(obj).get_version()), p))
     sizes = [0, 1, 2, 3, 4, 5, 8, 40, 41, 100, 1000] + ([65536, 70000] if ctx.thorough else [4096])
     for n in sizes:
         t = rng.choice([9, 2999, 10000, 13120, 20001, 65535, 0])
@@ -457,6 +506,80 @@ def random_history(rng, pool, bad, nenc):
     return calls
 
 
+def related_classes(pool):
+    """Every (parent entry, derived entry) of the pool: the class of the second payload object derives (directly or not) from the
+    class of the first.  Discovered with issubclass, whatever the library or the synthetic family contains."""
+    return [(P, C) for P in pool for C in pool if type(C[1]) is not type(P[1]) and issubclass(type(C[1]), type(P[1]))]
+
+
+def pair_cover(n, rng):
+    """A closed walk over 0..n-1 in which every ordered pair (a, b), a = b included, occurs exactly once as two consecutive
+    entries (an Euler circuit of the complete directed graph with loops; n^2 + 1 entries), in an order drawn from rng."""
+    nxt = {a: rng.sample(range(n), n) for a in range(n)}
+    stack, walk = [rng.randrange(n)], []
+    while stack:
+        a = stack[-1]
+        if nxt[a]:
+            stack.append(nxt[a].pop())
+        else:
+            walk.append(stack.pop())
+    return walk[::-1]
+
+
+def class_histories(ctx, objs, fails):
+    """Histories that vary WHICH payload class follows which on one encoder object (the header of a message must be that of the
+    payload of THAT call, whatever class the encoder was given before):
+    (1) every ordered pair (A, B) of payload classes, A = B included, as the first two calls of a fresh encoder object;
+    (2) the same pairs once more inside long histories: a walk through the classes in which every ordered pair is adjacent once,
+        cut into histories of 33 calls (each starts with the class the previous one ended with);
+    (3) around every two classes related by inheritance (P parent, C derived; found with issubclass): a third class X - every
+        class of the pool, P and C themselves included - in every position of both orders (X P C, P X C, P C X, X C P, C X P,
+        C P X); a refused call between P and C (pack() raising; source identifier outside its field);
+    (4) two encoder objects: what one was given must not label the other's messages - P on one, C on the other, for the related
+        classes in both orders, and ordered pairs of the pool (all of them in the thorough tier).
+    The pool: every registered class whose default object packs, the synthetic family (SYNTHETIC: classes derived from one
+    another once and twice, with the parent's type / version / payload or their own) and the short raw payloads."""
+    rng = ctx.rng
+    pool = [o for o in objs if registered_class_of(o[1]) is not None or len(o[4]) <= 100] + list(synthetic_family().values())
+    n = len(pool)
+    ctx.count('class_pool', n)
+
+    def call(entry, k=0, src=None, form='pos'):
+        return (k,) + tuple(entry[1:]) + (src, form)
+    res = []
+    for A in pool:
+        for B in pool:
+            start = rng.choice([0, 0, 0, 0xFFFFFFFF])
+            res.append(('%s,%s+pair' % (A[0], B[0]), [call(A, src=rng.choice([None, 5])), call(B, src=rng.choice([None, 9]), form=rng.choice(FORMS))], [start]))
+    ctx.count('class_ordered_pairs_on_a_fresh_encoder', n * n)
+    walk = pair_cover(n, rng)
+    for i in range(0, len(walk) - 1, 32):
+        part = walk[i:i + 33]
+        res.append(('pair-walk-%d' % (i // 32), [call(pool[j], src=rng.choice([None, None, 3])) for j in part], [rng.choice([0, 0, 7])]))
+    ctx.count('class_ordered_pairs_inside_long_histories', len(walk) - 1)
+    related = related_classes(pool)
+    ctx.count('class_pairs_related_by_inheritance', len(related))
+    for P, C in related:
+        name = '%s<-%s' % (P[0], C[0])
+        for X in pool:
+            for order in ((X, P, C), (P, X, C), (P, C, X), (X, C, P), (C, X, P), (C, P, X)):
+                res.append(('%s+%s+triple' % (name, X[0]), [call(e, src=rng.choice([None, None, 5])) for e in order], [0]))
+                ctx.count('class_triples_around_related_classes')
+        fail = (0,) + rng.choice(fails) + (None, None, 'pos')
+        res.append((name + '+refused-between', [call(P), fail, call(C), call(C), call(P)], [0]))
+        res.append((name + '+refused-between', [call(P), call(C, src=1 << 32), call(C), call(P, src=-1), call(P), call(C)], [0]))
+        for a, b in ((P, C), (C, P)):
+            res.append((name + '+two-encoders', [call(a, 0), call(b, 1), call(b, 0), call(a, 1), call(a, 0), call(b, 1)], [0, 0]))
+            res.append((name + '+two-encoders', [call(a, 0), call(a, 0), call(b, 1), call(b, 0)], [0, rng.choice([0, 5])]))
+    cross = [(A, B) for A in pool for B in pool]
+    if not ctx.thorough:
+        cross = rng.sample(cross, min(len(cross), 400))
+    for A, B in cross:
+        res.append(('%s/%s+two-encoders' % (A[0], B[0]), [call(A, 0), call(B, 1), call(B, 0), call(A, 1)], [0, 0]))
+    ctx.count('class_pairs_across_two_encoders', len(cross))
+    return res
+
+
 def check_encoder(ctx, exe, objs):
     """Returns the list of encoded messages (label, bytes)."""
     rng = ctx.rng
@@ -490,6 +613,7 @@ def check_encoder(ctx, exe, objs):
         nenc = rng.choice([1, 1, 2, 3])
         starts = [rng.choice([0, 0, 0, 1, 0xFFFFFFF0 + rng.randrange(16), rng.getrandbits(32)]) for _ in range(nenc)]
         histories.append(('random-history-%d' % i, random_history(rng, small, fails, nenc), starts))
+    histories += class_histories(ctx, objs, fails)
     encoded, hist_encoded = [], []
     lines, pend = [], []
     for label, calls, starts in sessions:
@@ -528,15 +652,16 @@ def check_encoder(ctx, exe, objs):
 
 
 def py_decode_headers(buf):
-    """(type, version, sequence number, source identifier, payload size) of every message a fresh FusionEngineDecoder returns."""
+    """((type, version, sequence number, source identifier, payload size), class of the payload object) of every message a fresh
+    FusionEngineDecoder returns."""
     from fusion_engine_client.parsers.decoder import FusionEngineDecoder
     dec = FusionEngineDecoder(max_payload_len_bytes=1 << 24, return_bytes=True, return_offset=True, warn_on_error='none')
     try:
         res = dec.on_data(bytes(buf))
     except Exception as e:
         return 'raised:' + type(e).__name__
-    return [(int(r[0].message_type), int(r[0].message_version), int(r[0].sequence_number), int(r[0].source_identifier),
-             int(r[0].payload_size_bytes)) for r in res]
+    return [((int(r[0].message_type), int(r[0].message_version), int(r[0].sequence_number), int(r[0].source_identifier),
+              int(r[0].payload_size_bytes)), type(r[1])) for r in res]
 
 
 def run_history(ctx, label, calls, starts, lines, pend, encoded):
@@ -560,8 +685,8 @@ def run_history(ctx, label, calls, starts, lines, pend, encoded):
         enc = encs[k]
         want_src = 0 if src is None else src
         before = enc.sequence_number
-        call = {'enc': k, 'type': t, 'version': v, 'source': src, 'form': form, 'payload': None if p is None else hx(p),
-                'seq_before': before}
+        call = {'enc': k, 'class': class_label(obj), 'type': t, 'version': v, 'source': src, 'form': form,
+                'payload': None if p is None else hx(p), 'seq_before': before}
         trace.append(call)
         replay = dict(base, calls=list(trace))
         try:
@@ -594,7 +719,11 @@ def run_history(ctx, label, calls, starts, lines, pend, encoded):
         if (s0, s1, res, pv) != (0x2E, 0x31, 0, 2):
             ctx.violation('C06/encoder-framing-constants', 'sync/reserved/protocol = %r' % ((s0, s1, res, pv),), replay)
         if mt != t or mv != v:
-            ctx.violation('C06/encoder-type-or-version', 'header carries type %d version %d, payload is type %d version %d' % (mt, mv, t, v), replay)
+            prev = next((c for c in reversed(trace[:-1]) if c['enc'] == k), None)
+            ctx.violation('C06/encoder-type-or-version', 'header carries type %d version %d, the payload object of this call (%s) is type %d version %d '
+                          '(call %d of the history, encoder object %d; the previous call on it had a %s payload, type %s version %s)'
+                          % (mt, mv, call['class'] or 'raw class', t, v, len(trace) - 1, k, prev and (prev['class'] or 'raw class'),
+                             prev and prev['type'], prev and prev['version']), replay)
         if sid != want_src:
             ctx.violation('C06/encoder-source-id', 'header carries source %d, %s (call %d of the history, encoder object %d)'
                           % (sid, 'the call omitted source_identifier (0)' if src is None else 'given %d' % src, len(trace) - 1, k), replay)
@@ -604,7 +733,7 @@ def run_history(ctx, label, calls, starts, lines, pend, encoded):
             ctx.violation('C06/encoder-sequence-not-consecutive',
                           'message carries sequence %d, the previous produced message implies %d' % (seq, expect_seq[k] % (1 << 32)), replay)
         streams[k][0].append(out)
-        streams[k][1].append((t, v, expect_seq[k] % (1 << 32), want_src, len(p)))
+        streams[k][1].append(((t, v, expect_seq[k] % (1 << 32), want_src, len(p)), registered_class_of(obj)))
         expect_seq[k] = seq + 1
         encoded.append((label, out))
     for k, (tokens, impls) in enumerate(sess):
@@ -612,9 +741,19 @@ def run_history(ctx, label, calls, starts, lines, pend, encoded):
             lines.append('session %d %s' % (starts[k], ' '.join(tokens)))
             pend.append((dict(base, calls=list(trace), encoder_object=k), impls))
     # the stream decoder's view of what each encoder object produced, in order
-    for k, (outs, want) in enumerate(streams):
+    for k, (outs, want_all) in enumerate(streams):
         if outs and sum(len(o) for o in outs) <= 1 << 16:
-            got = py_decode_headers(b''.join(outs))
+            got_all = py_decode_headers(b''.join(outs))
+            got = got_all if isinstance(got_all, str) else [g[0] for g in got_all]
+            want = [w[0] for w in want_all]
+            if got == want:
+                # the decoder constructs an object of exactly the class that was encoded (registered classes)
+                for i, ((_, gc), (_, wc)) in enumerate(zip(got_all, want_all)):
+                    if wc is not None and gc is not wc:
+                        ctx.violation('C06/encoder-message-decoded-as-another-class',
+                                      'message %d of encoder object %d was encoded from a %s object; FusionEngineDecoder returns a %s object for it'
+                                      % (i, k, wc.__name__, gc.__name__), dict(base, calls=list(trace), encoder_object=k))
+                        break
             if got != want:
                 first = next((i for i, (g, w) in enumerate(zip(got, want)) if g != w), min(len(got), len(want))) if isinstance(got, list) else 0
                 ctx.violation('C06/encoder-stream-fields-seen-by-decoder',
@@ -1092,9 +1231,16 @@ def check(ctx):
                        'call histories: for every such payload object one encoder object driven through calls that give / omit / are refused '
                        'a source identifier in turn (0, small, 2^32-1; refused 2^32, -1; a payload whose pack() raises; positional and keyword '
                        'call forms), two encoder objects interleaved (the second constructed after the first was used), and random histories '
-                       'over 1-3 encoder objects mixing payload classes; after every call the message is compared with the arguments of THAT '
-                       'call (source 0 when omitted) and with the Lean encoder model stepped over the same history, and each encoder object\'s '
-                       'output stream is read back through FusionEngineDecoder. '
+                       'over 1-3 encoder objects mixing payload classes; WHICH CLASS FOLLOWS WHICH: every ordered pair of payload classes '
+                       '(every registered class whose default object packs, short raw payloads, and a synthetic family of classes derived from '
+                       'one another with the parent\'s or their own type / version / payload) as the first two calls of a fresh encoder object '
+                       'and once more inside long histories (a walk in which every ordered pair is adjacent once), every class of the pool in '
+                       'every position around every two classes related by inheritance (found with issubclass) in both orders, refused calls '
+                       'between them, and the pairs split over two encoder objects; after every call the message is compared with the arguments '
+                       'of THAT call (type and version of the class of that call\'s payload object = its MESSAGE_TYPE / MESSAGE_VERSION = the '
+                       'type it is registered under; source 0 when omitted) and with the Lean encoder model stepped over the same history, and '
+                       'each encoder object\'s output stream is read back through FusionEngineDecoder, which must construct an object of exactly '
+                       'the class that was encoded. '
                        'Corruption: for every distinct encoded message every single-bit flip of bytes [4, end), double flips (all pairs for messages '
                        '<= 64 bytes, sampled otherwise), bursts <= 32 bits at random positions inside one region; each altered copy given to '
                        'unpack(validate_crc=True), FusionEngineDecoder (alone and followed by a valid message), IsValid, the CRC compare and the C++ framer. '
@@ -1161,23 +1307,35 @@ def replay(ctx, path):
         judge_valid(ctx, r.get('label', '?'), b, cx, md)
         print('c++: %s\nmodel: %s' % (cx, md))
     elif kind == 'encode':
+        from fusion_engine_client.messages import message_type_to_class
+        by_name = {c.__name__: c for c in message_type_to_class.values()}
         calls = []
         for c in r['calls']:
             p = None if c['payload'] is None else bytes.fromhex(c['payload'].replace('-', ''))
-            calls.append((c.get('enc', 0), make_raw_class(c['type'], c['version'], p, raises=p is None)(), c['type'], c['version'], p,
-                          c['source'], c.get('form', 'pos')))
+            name = c.get('class')
+            if name in by_name and p is not None:       # the library's own class (its default object), so that inheritance is as in the run
+                obj = by_name[name]()
+                t, v, p = int(type(obj).get_type()), int(type(obj).get_version()), bytes(obj.pack())
+            elif name in synthetic_family():
+                _, obj, t, v, p = synthetic_family()[name]
+            else:
+                obj, t, v = make_raw_class(c['type'], c['version'], p, raises=p is None)(), c['type'], c['version']
+            calls.append((c.get('enc', 0), obj, t, v, p, c['source'], c.get('form', 'pos')))
         lines, pend, enc = [], [], []
         run_history(ctx, r.get('label', '?'), calls, r['starts'] if 'starts' in r else [r['start']], lines, pend, enc)
         outs = ctx.driver(lines)
         for (rp, impl), model in zip(pend, outs):
             if isinstance(impl, list):
                 for c, a, m in zip([c for c in r['calls'] if c.get('enc', 0) == rp['encoder_object']], impl, model.split('|')):
-                    print('encoder object %d, source %s:\n  impl  %s\n  model %s' % (rp['encoder_object'], c['source'], a[:200], m[:200]))
+                    print('encoder object %d, %s payload (type %s version %s), source %s:\n  impl  %s\n  model %s'
+                          % (rp['encoder_object'], c.get('class') or 'raw', c['type'], c['version'], c['source'], a[:200], m[:200]))
                 if impl != model.split('|'):
                     ctx.disagree('encode_message != model stepped over the call history', rp)
             elif impl != model:
                 print('impl  %s\nmodel %s' % (impl[:200], model[:200]))
                 ctx.disagree('encode_message != model', rp)
+    elif kind == 'class':
+        payload_objects(ctx)
     else:
         print('nothing to replay in %s' % path)
     return fv.finish(ctx, 'proof', None)
